@@ -472,3 +472,47 @@ def r27_7(ctx, m, okl, rule="R27.7"):
                   "sampled although the configuration says otherwise)", okl, c)
     if not ctors:
         ctx.und(rule, f"{okl.key}::energy constructors", "none found in the loop", okl)
+
+
+# ---------------------------------------------------------------------------------------------------------------- R27.8 / R27.9
+def r27_8(ctx, m):
+    from ..util import cfg_of, find_nodes
+    fi = m.func("nifty.cl.minimization.optimize_kl", "optimize_kl")
+    ctx.rule("R27.8", "the driver's own sample-list writes never refuse to overwrite (overwrite=True as a constant): a second, "
+                      "non-resumed run into an existing output directory is a documented configuration under every save strategy", floor=1)
+    cfg = cfg_of(fi)
+    saves = find_nodes(cfg, lambda q: isinstance(q, ast.Call) and isinstance(q.func, ast.Attribute) and q.func.attr == "save"
+                       and any(k.arg == "overwrite" for k in q.keywords))
+    if not saves:
+        ctx.und("R27.8", f"{fi.key}::sample list save", "no save(..., overwrite=...) call found", fi)
+    for n, c in saves:
+        ov = [k.value for k in c.keywords if k.arg == "overwrite"][0]
+        good = isinstance(ov, ast.Constant) and ov.value is True
+        ctx.check("R27.8", f"{fi.key}::{src(c.func)}(..., overwrite=True)", good,
+                  None if good else f"overwrite={src(ov)}: with existing files of an earlier run the save raises (and leaves the seed stack pushed)", fi, c)
+
+
+def r27_9(ctx, m):
+    mod = m.module("nifty.cl.minimization.optimize_kl")
+    fi = mod.functions.get("_number_of_arguments")
+    ctx.rule("R27.9", "callback arity is taken from inspect.signature (correct for functions, lambdas, partials, builtins and bound "
+                      "methods alike) on every path; code-object argument counts include `self` for bound methods", floor=1)
+    if fi is None:
+        ctx.und("R27.9", "nifty.cl.minimization.optimize_kl::_number_of_arguments", "helper not found", mod.relpath)
+        return
+    ctx.saw_func(fi)
+    p0 = fi.params()[0]
+    rets = [r for r in walk_no_nested(fi.node) if isinstance(r, ast.Return)]
+    bad = [r for r in rets if "co_argcount" in src(r.value) or "__code__" in src(r.value)]
+    good = bool(rets) and all(src(r.value).replace(" ", "") in (f"len(signature({p0}).parameters)", f"len(inspect.signature({p0}).parameters)") for r in rets)
+    ctx.check("R27.9", f"{fi.key}::every return is len(signature(callable).parameters)", False if bad else (True if good else None),
+              f"`{short(bad[0])}` counts `self` of a bound method as an argument" if bad else "; ".join(src(r.value) for r in rets), fi, bad[0] if bad else None)
+
+
+_run_c27c = run
+
+
+def run(ctx):  # noqa: F811
+    _run_c27c(ctx)
+    r27_8(ctx, ctx.model)
+    r27_9(ctx, ctx.model)
